@@ -102,6 +102,8 @@ type c05Case struct {
 	pipeSize int
 	consume  []int
 	pause    []int
+	// "+CONTINUE <id>": the source announces a new replication id with the continuation
+	contNewID string
 }
 
 func randCase(t *rapid.T, s string) string {
@@ -145,6 +147,11 @@ func drawC05(t *rapid.T, maxRdb, maxCmds int, sync bool) *c05Case {
 			c.line = c.line[:12] + c.runid + c.line[12+40:]
 		} else {
 			c.line = randCase(t, "+CONTINUE")
+			if rapid.IntRange(0, 4).Draw(t, "psync2") == 0 {
+				// PSYNC2 masters announce a changed replication id with the continuation
+				c.contNewID = rapid.StringMatching(`[0-9a-f]{40}`).Draw(t, "newReplID")
+				c.line += " " + c.contNewID
+			}
 		}
 		sb.WriteString(c.line + "\r\n")
 	}
@@ -331,6 +338,16 @@ func c05Component(t *rapid.T) {
 			}
 		}
 	})
+	if c.contNewID != "" {
+		// refusing the continuation or adopting the announced id are both fine; keeping the old id silently is not
+		if res.Completed && perr == nil && runid != c.contNewID {
+			violation(t, "C05", "continue-new-id-dropped", "%s: the source answered %q; SendPSyncContinue reports run id %q", desc, c.line, runid)
+			return
+		}
+		src.Close()
+		stats.C.Case(true, stats.Hash(c.stream, []byte(desc)), "component", "continue-with-new-id")
+		return
+	}
 	if !res.Completed || perr != nil {
 		violation(t, "C05", "handshake", "%s: handshake failed: %v err=%v", desc, res, perr)
 		return
@@ -426,6 +443,16 @@ func c05Full(t *rapid.T) {
 	res := logcap.RunTree(func() {
 		piper, nsize, isFull, runid, perr = ds.VerifSendPSyncCmd(src.Addr(), "auth", srcSentinel, false, ask)
 	})
+	if c.contNewID != "" {
+		// the tool may refuse such a continuation (it then falls back to a full sync elsewhere) or adopt the announced id;
+		// carrying on under the id it asked with is the one thing that must not happen
+		if res.Completed && perr == nil && runid != c.contNewID {
+			violation(t, "C05", "full:continue-new-id-dropped", "%s: the source answered %q; the tool carries on with run id %q", desc, c.line, runid)
+			return
+		}
+		stats.C.Case(true, stats.Hash(c.stream, []byte(desc)), "full-path", "continue-with-new-id")
+		return
+	}
 	if !res.Completed || perr != nil {
 		violation(t, "C05", "full:handshake", "%s: sendPSyncCmd failed: %v err=%v", desc, res, perr)
 		return
